@@ -93,4 +93,10 @@ example : Gen.tr_GetOutFilename "KindIsFile" [] false "bam".toList "reads".toLis
     Gen.tr_GetOutFilename "KindIsNotFile" [] false "int".toList "n".toList = [] ∧
     outFilename (.file "bam") "reads" "" = "reads.bam" := by decide
 
+/-- FAIL CLOSED (second audit pass, X2/X3): the tie theorems of this file are about the
+definition(s) TRANSLATED FROM THE TREE UNDER TEST, not about the committed default the
+extractor falls back to when the source leaves the translated subset – in that
+case this obligation breaks and `./check` reports it (besides the note). -/
+theorem translated_from_tree_under_test : Gen.tr_GetOutFilename_extracted = true := by decide
+
 end Props.C13
